@@ -183,6 +183,18 @@ async fn run_one(sc: &Value) -> Value {
                 out["end"] = json!("nologin");
             }
         }
+        "C03app" => {
+            // the application's own wiring of the localization configuration: nobody to be sent to, the client reports `locale`
+            let mut t = Tcp::connect(addr, None).await.unwrap();
+            let o = login_to(&mut t, 2, "h", 25565, "Claimed", 5, None, "success", Duration::from_millis(2500)).await;
+            if o.login_success.is_some() {
+                let c = configuration_loc(&mut t, sc["locale"].as_str(), true, Duration::from_millis(2500)).await;
+                out["end"] = c["end"].clone();
+                out["reason"] = c["reason"].clone();
+            } else {
+                out["end"] = json!("nologin");
+            }
+        }
         "C13app" => {
             // one announced source address, connections at chosen moments against the configured limiter
             let mut res = vec![];
